@@ -39,9 +39,11 @@ import (
 	"sync"
 	"time"
 
+	"github.com/AliceO2Group/Control/common/event"
 	"github.com/AliceO2Group/Control/common/event/topic"
 	pb "github.com/AliceO2Group/Control/common/protos"
 	"github.com/AliceO2Group/Control/core/environment"
+	odcevent "github.com/AliceO2Group/Control/core/integration/odc/event"
 	"github.com/AliceO2Group/Control/core/task"
 	"github.com/AliceO2Group/Control/core/the"
 
@@ -218,8 +220,11 @@ func genC10(c *vlib.Ctx, idx int64) C10Case {
 			switch {
 			case p < 34:
 				add(plainStep("STOP_ACTIVITY", state))
-			case p < 66:
+			case p < 55:
 				add(failingStep(r, "STOP_ACTIVITY", state))
+			case p < 66:
+				cs.Steps = append(cs.Steps, odcStep(r))
+				state = "ERROR"
 			case p < 75:
 				add(plainStep("GO_ERROR", state))
 			case p < 82:
@@ -258,6 +263,35 @@ func genC10(c *vlib.Ctx, idx int64) C10Case {
 		}
 	}
 	return cs
+}
+
+// odcStep: an ODC_PARTITION_STATE_CHANGE event with state ERROR for a RUNNING environment, handed to the
+// real Manager.NotifyIntegratedServiceEvent. The manager's handler then runs, on its own goroutine, the
+// REAL STOP_ACTIVITY, then (unless the environment is in ERROR) the REAL GO_ERROR, and finally forces
+// the state with Environment.setState("ERROR"): the production path to a forced ERROR. Script: both
+// transitions cancelled by critical hooks / failing tasks (the run is still open when the state is
+// forced), only the STOP cancelled, or nothing failing.
+func odcStep(r *rand.Rand) Step {
+	s := Step{Op: "ODC_ERROR", Src: "RUNNING", Expect: "ERROR", Note: "odc"}
+	w := func() int { return probeWeights[r.Intn(3)] }
+	switch p := r.Intn(100); {
+	case p < 22:
+		s.Fail = []string{envlab.Expr("leave_RUNNING", w())} // cancels both
+	case p < 46:
+		s.Fail = []string{envlab.Expr("before_STOP_ACTIVITY", w()), envlab.Expr("before_GO_ERROR", w())}
+	case p < 62:
+		s.FailBody = true // the tasks fail to stop
+		s.Fail = []string{envlab.Expr([]string{"before_GO_ERROR", "leave_RUNNING"}[r.Intn(2)], w())}
+	case p < 72:
+		s.Fail = []string{envlab.Expr("before_STOP_ACTIVITY", w())}
+	case p < 82:
+		s.FailBody = true
+	}
+	if r.Intn(100) < 40 {
+		ms := []string{"before_STOP_ACTIVITY", "leave_RUNNING", "before_GO_ERROR", "enter_ERROR", "after_GO_ERROR"}
+		s.Slow = append(s.Slow, envlab.Expr(ms[r.Intn(len(ms))], w()))
+	}
+	return s
 }
 
 // raceStepGen: START_ACTIVITY (from CONFIGURED) or STOP_ACTIVITY / GO_ERROR (from RUNNING) with a forced
@@ -485,6 +519,13 @@ func execC10(w *envlab.World, cs C10Case) (*c10Outcome, error) {
 				out.Anomalies++
 				lab.Add(envlab.Record{Kind: envlab.KAnomaly, Msg: an})
 			}
+		} else if st.Op == "ODC_ERROR" {
+			var an string
+			res.State, an = odcError(lab, st, sc)
+			if an != "" {
+				out.Anomalies++
+				lab.Add(envlab.Record{Kind: envlab.KAnomaly, Msg: an})
+			}
 		} else if st.Op == "TEARDOWN" {
 			res.State, derr = seqTeardown(lab, st.Force)
 		} else if st.Op == "FORCE_ERROR" {
@@ -615,6 +656,48 @@ func raceTeardown(lab *envlab.Lab, st *Step, sc *c10Script, real bool) (state st
 	return state, tdErr, anomaly
 }
 
+const (
+	kOdcBegin envlab.Kind = "odc_begin"
+	kOdcEnd   envlab.Kind = "odc_end"
+)
+
+const fnOdcHandler = "core/environment.(*Manager).handleIntegratedServiceEvent.func"
+
+// odcError drives one ODC_ERROR step and returns when the handler's goroutine is gone.
+func odcError(lab *envlab.Lab, st *Step, sc *c10Script) (state string, anomaly string) {
+	src := lab.Env.CurrentState()
+	lab.Add(envlab.Record{Kind: kOdcBegin, Event: st.Op, Src: src, State: src})
+	if st.FailBody {
+		sc.setBody(func() error { return errors.New("verif: tasks failed to transition (scripted)") })
+		defer sc.setBody(nil)
+	}
+	lab.W.Mgr.NotifyIntegratedServiceEvent(&odcevent.OdcPartitionStateChangeEvent{
+		IntegratedServiceEventBase: event.IntegratedServiceEventBase{ServiceName: "ODC"},
+		EnvironmentId:              lab.Env.Id(), State: "ERROR", EcsState: src})
+	deadline := time.Now().Add(watchdog)
+	for {
+		if lab.Env.CurrentState() == "ERROR" {
+			busy := false
+			for _, g := range envlab.Goroutines() {
+				if g.Has(fnOdcHandler) {
+					busy = true
+				}
+			}
+			if !busy {
+				break
+			}
+		}
+		if time.Now().After(deadline) {
+			anomaly = "ODC_ERROR step: the environment did not reach ERROR / the handler did not finish"
+			break
+		}
+		time.Sleep(200 * time.Microsecond)
+	}
+	state = lab.Env.CurrentState()
+	lab.Add(envlab.Record{Kind: kOdcEnd, Event: st.Op, Src: src, State: state})
+	return state, anomaly
+}
+
 // normalizeC10 turns the records of a Race step into the sequential shape the oracle reads: the
 // transition ends at its last published event ("transition completed successfully" / "transition
 // error", written under the transition mutex, with the state it left), the teardown begins right
@@ -623,8 +706,27 @@ func normalizeC10(recs []envlab.Record) []envlab.Record {
 	out := make([]envlab.Record, 0, len(recs)+8)
 	op, src := "", ""
 	inRace, final := false, false
+	inOdc, odcLast := false, ""
 	for _, r := range recs {
 		switch {
+		// ODC_ERROR step: the handler's own transitions are bracketed by their first and last published
+		// event; a state that differs from the one they left at the end of the step was forced
+		case r.Kind == kOdcBegin:
+			inOdc, odcLast = true, r.Src
+			out = append(out, r)
+		case inOdc && r.Kind == envlab.KEnvEvent && r.Step == "" && r.Msg == "transition starting":
+			out = append(out, r, envlab.Record{Seq: r.Seq, Kind: envlab.KTransBegin, Event: r.Event, Src: r.State, State: r.State, Msg: "odc"})
+		case inOdc && r.Kind == envlab.KEnvEvent && r.Step == "" &&
+			(r.Msg == "transition completed successfully" || r.Msg == "transition error" || r.Msg == "transition impossible"):
+			out = append(out, r, envlab.Record{Seq: r.Seq, Kind: envlab.KTransEnd, Event: r.Event, State: r.State, Err: r.Err, Msg: "odc"})
+			odcLast = r.State
+		case r.Kind == kOdcEnd:
+			if r.State != odcLast {
+				out = append(out, envlab.Record{Seq: r.Seq, Kind: envlab.KTransBegin, Event: "FORCE_ERROR", Src: odcLast, State: odcLast, Msg: "odc: Environment.setState"},
+					envlab.Record{Seq: r.Seq, Kind: envlab.KTransEnd, Event: "FORCE_ERROR", Src: odcLast, State: r.State, Msg: "odc: Environment.setState"})
+			}
+			out = append(out, r)
+			inOdc = false
 		case r.Kind == kRaceBegin:
 			op, src, inRace, final = r.Event, r.Src, true, false
 			out = append(out, envlab.Record{Seq: r.Seq, Kind: envlab.KTransBegin, Event: op, Src: src, State: src, Msg: "race"})
@@ -1121,6 +1223,11 @@ func countC10Case(c *vlib.Ctx, cs C10Case, out *c10Outcome) {
 			}
 			if s.FailBody {
 				c.Count("failed_"+key+"_at_body", 1)
+			}
+		case "odc":
+			c.Count("odc_error_steps", 1)
+			if len(s.Fail) > 0 && (len(s.Fail) > 1 || s.FailBody || strings.HasPrefix(s.Fail[0], "leave_RUNNING")) {
+				c.Count("odc_error_steps_both_transitions_cancelled", 1)
 			}
 		case "race":
 			c.Count("race_teardown_during_"+key, 1)
